@@ -12,7 +12,9 @@ use warp_core::{
     export_suffix, import_suffix, BoundaryTransitionRecord, BtrError, CausalSuffixBundle, CursorId,
     CursorRole, ExportSuffixRequest, Hash, HeadId, ImportSuffixRequest, PlaybackCursor,
     ProvenanceEntry, ProvenanceEventKind, ProvenanceRef, ProvenanceService, ProvenanceStore,
-    ReplayCheckpoint, TickCommitStatus, WarpTickPatchV1, WitnessedSuffixAdmissionContext,
+    ForkBasisRef, ParentMovementFootprint, ReplayCheckpoint, SlotId, StrandBasisReport,
+    StrandDivergenceFootprint, StrandRevalidationState, TickCommitStatus, WarpTickPatchV1,
+    WitnessedSuffixAdmissionContext, WorldlineTickHeaderV1, WorldlineTickPatchV1,
     WitnessedSuffixAdmissionOutcome, WitnessedSuffixAdmissionRequest, WitnessedSuffixExportContext,
     WitnessedSuffixLocalAdmissionPosture, WitnessedSuffixShell, WorldlineId, WorldlineState,
     WorldlineTick,
@@ -64,6 +66,8 @@ pub const REQUIRED_OPERATORS: &[&str] = &[
     "suffix:drop",
     "suffix:dup",
     "suffix:swap",
+    "suffix:some",
+    "suffix:replace-same-count",
     "retained:bitflip",
 ];
 
@@ -294,13 +298,16 @@ pub fn entry_fields(acc: &mut Acc, h: &History, base: &Baseline, prm: &Params) {
                 }
             })
             .collect();
+        let recorded = !matches!(e.event_kind, ProvenanceEventKind::LocalCommit);
         for (m, res) in muts.iter().zip(verdicts) {
             let posl = format!("entry#{pos}({}@{})", wl_tag(e.worldline_id), e.worldline_tick.as_u64());
+            // recorded (non-local) events are validated by a different append path
+            let fname = if recorded { format!("recorded.{}", m.field) } else { m.field.clone() };
             let case = Case {
                 h,
                 phase: "entry",
                 pos: posl,
-                field: &m.field,
+                field: &fname,
                 kind: m.kind,
                 detail: &m.detail,
             };
@@ -315,7 +322,13 @@ pub fn entry_fields(acc: &mut Acc, h: &History, base: &Baseline, prm: &Params) {
                 }
                 (Ok(_), None) => acc.count("noop_mutants_skipped", 1),
                 (Ok(_), Some((v, v2))) => {
-                    if acc.samples.len() < 4 && pos == 0 && (m.field == "expected.commit_hash" || m.field == "commit_global_tick") {
+                    if acc.samples.len() < 4
+                        && pos == 0
+                        && ((m.field == "expected.commit_hash" && m.detail == "b0")
+                            || (m.field == "commit_global_tick" && m.kind == "inc")
+                            || (m.field == "parents.commit_hash" && m.detail.ends_with("b0"))
+                            || (m.field == "patch.ops" && m.kind == "drop" && m.detail == "op0"))
+                    {
                         acc.sample(json!({"case": case.json(), "errors": v.errors, "ok_checks": v.ok_checks, "diffs": v.diffs}));
                     }
                     classify(acc, &case, &v, Mode::SingleField);
@@ -1015,6 +1028,23 @@ impl<'a> WitnessedSuffixAdmissionContext for AdmitCtx<'a> {
     }
 }
 
+/// What an admission response decides: verdict kind, shell identity, basis, target and the exact
+/// entries admitted / staged / kept plural (everything except the echoed basis-report evidence).
+fn admission_core(
+    r: &warp_core::WitnessedSuffixAdmissionResponse,
+) -> (String, Hash, ProvenanceRef, Option<WorldlineId>, Vec<ProvenanceRef>) {
+    let (target, refs) = match &r.outcome {
+        WitnessedSuffixAdmissionOutcome::Admitted { target_worldline_id, admitted_refs, .. } => {
+            (Some(*target_worldline_id), admitted_refs.clone())
+        }
+        WitnessedSuffixAdmissionOutcome::Staged { staged_refs, .. } => (None, staged_refs.clone()),
+        WitnessedSuffixAdmissionOutcome::Plural { candidate_refs, .. } => (None, candidate_refs.clone()),
+        WitnessedSuffixAdmissionOutcome::Conflict { source_ref, .. } => (None, vec![*source_ref]),
+        WitnessedSuffixAdmissionOutcome::Obstructed { source_ref, .. } => (None, vec![*source_ref]),
+    };
+    (variant_name(&r.outcome), r.source_shell_digest, r.target_basis, target, refs)
+}
+
 fn ref_variants(r: &ProvenanceRef, pos: &[usize]) -> Vec<(String, &'static str, String, ProvenanceRef)> {
     let mut v = Vec::new();
     for &b in pos {
@@ -1033,11 +1063,239 @@ fn ref_variants(r: &ProvenanceRef, pos: &[usize]) -> Vec<(String, &'static str, 
     v
 }
 
-fn shell_muts(s: &WitnessedSuffixShell, pos: &[usize], foreign: &[ProvenanceRef]) -> Vec<Mutant<WitnessedSuffixShell>> {
+fn example_report(h: &History, s: &WitnessedSuffixShell) -> StrandBasisReport {
+    let r = s.source_entries.first().copied().or(s.boundary_witness).unwrap_or(ProvenanceRef {
+        worldline_id: s.source_worldline_id,
+        worldline_tick: WorldlineTick::from_raw(0),
+        commit_hash: [0; 32],
+    });
+    let _ = h;
+    StrandBasisReport {
+        strand_id: warp_core::make_strand_id("c05-example"),
+        parent_anchor: ForkBasisRef {
+            source_lane_id: r.worldline_id,
+            fork_tick: r.worldline_tick,
+            commit_hash: r.commit_hash,
+            boundary_hash: [0x21; 32],
+            provenance_ref: r,
+        },
+        child_worldline_id: s.source_worldline_id,
+        source_suffix_start_tick: s.source_suffix_start_tick,
+        source_suffix_end_tick: s.source_suffix_end_tick,
+        realized_parent_ref: r,
+        owned_divergence: StrandDivergenceFootprint::default(),
+        parent_movement: ParentMovementFootprint::default(),
+        parent_revalidation: StrandRevalidationState::AtAnchor,
+    }
+}
+
+fn footprint_patch(reads: Vec<SlotId>, writes: Vec<SlotId>) -> WorldlineTickPatchV1 {
+    WorldlineTickPatchV1 {
+        header: WorldlineTickHeaderV1 {
+            commit_global_tick: warp_core::GlobalTick::from_raw(0),
+            policy_id: 0,
+            rule_pack_id: [0; 32],
+            plan_digest: [0; 32],
+            decision_digest: [0; 32],
+            rewrites_digest: [0; 32],
+        },
+        warp_id: warp_core::WarpId([0; 32]),
+        ops: Vec::new(),
+        in_slots: reads,
+        out_slots: writes,
+        patch_digest: [0; 32],
+    }
+}
+
+fn bogus_slot(tag: u8) -> SlotId {
+    SlotId::Node(warp_core::NodeKey {
+        warp_id: warp_core::WarpId([tag; 32]),
+        local_id: warp_core::NodeId([tag; 32]),
+    })
+}
+
+/// Every field of a strand basis report (footprints are rebuilt through their public API).
+fn report_muts(r: &StrandBasisReport, pos: &[usize]) -> Vec<(String, &'static str, String, StrandBasisReport)> {
+    let mut v: Vec<(String, &'static str, String, StrandBasisReport)> = Vec::new();
+    for &b in pos {
+        let mut c = r.clone();
+        c.strand_id = warp_core::StrandId::from_bytes({ let mut x = *c.strand_id.as_bytes(); x[b] ^= 1; x });
+        v.push(("strand_id".to_owned(), "flip", format!("b{b}"), c));
+        let mut c = r.clone();
+        c.parent_anchor.source_lane_id = WorldlineId::from_bytes({ let mut x = *c.parent_anchor.source_lane_id.as_bytes(); x[b] ^= 1; x });
+        v.push(("parent_anchor.source_lane_id".to_owned(), "flip", format!("b{b}"), c));
+        let mut c = r.clone();
+        c.parent_anchor.commit_hash[b] ^= 1;
+        v.push(("parent_anchor.commit_hash".to_owned(), "flip", format!("b{b}"), c));
+        let mut c = r.clone();
+        c.parent_anchor.boundary_hash[b] ^= 1;
+        v.push(("parent_anchor.boundary_hash".to_owned(), "flip", format!("b{b}"), c));
+        let mut c = r.clone();
+        c.child_worldline_id = WorldlineId::from_bytes({ let mut x = *c.child_worldline_id.as_bytes(); x[b] ^= 1; x });
+        v.push(("child_worldline_id".to_owned(), "flip", format!("b{b}"), c));
+    }
+    for (k, t) in [("inc", r.parent_anchor.fork_tick.as_u64().wrapping_add(1)), ("dec", r.parent_anchor.fork_tick.as_u64().wrapping_sub(1))] {
+        let mut c = r.clone();
+        c.parent_anchor.fork_tick = WorldlineTick::from_raw(t);
+        v.push(("parent_anchor.fork_tick".to_owned(), k, String::new(), c));
+    }
+    for (f, k, d, x) in ref_variants(&r.parent_anchor.provenance_ref, pos) {
+        let mut c = r.clone();
+        c.parent_anchor.provenance_ref = x;
+        v.push((format!("parent_anchor.provenance_ref.{f}"), k, d, c));
+    }
+    for (f, k, d, x) in ref_variants(&r.realized_parent_ref, pos) {
+        let mut c = r.clone();
+        c.realized_parent_ref = x;
+        v.push((format!("realized_parent_ref.{f}"), k, d, c));
+    }
+    for (k, t) in [("inc", r.source_suffix_start_tick.as_u64().wrapping_add(1)), ("dec", r.source_suffix_start_tick.as_u64().wrapping_sub(1))] {
+        let mut c = r.clone();
+        c.source_suffix_start_tick = WorldlineTick::from_raw(t);
+        v.push(("source_suffix_start_tick".to_owned(), k, String::new(), c));
+    }
+    match r.source_suffix_end_tick {
+        Some(e) => {
+            for (k, t) in [("inc", e.as_u64().wrapping_add(1)), ("dec", e.as_u64().wrapping_sub(1))] {
+                let mut c = r.clone();
+                c.source_suffix_end_tick = Some(WorldlineTick::from_raw(t));
+                v.push(("source_suffix_end_tick".to_owned(), k, String::new(), c));
+            }
+            let mut c = r.clone();
+            c.source_suffix_end_tick = None;
+            v.push(("source_suffix_end_tick".to_owned(), "none", String::new(), c));
+        }
+        None => {
+            let mut c = r.clone();
+            c.source_suffix_end_tick = Some(r.source_suffix_start_tick);
+            v.push(("source_suffix_end_tick".to_owned(), "some", String::new(), c));
+        }
+    }
+    // owned divergence footprint: one more slot; one slot replaced (same count)
+    let reads: Vec<SlotId> = r.owned_divergence.read_slots().copied().collect();
+    let writes: Vec<SlotId> = r.owned_divergence.write_slots().copied().collect();
+    {
+        let mut c = r.clone();
+        c.owned_divergence.extend_patch(&footprint_patch(vec![bogus_slot(0xd1)], Vec::new()));
+        v.push(("owned_divergence".to_owned(), "add", "one more read slot".to_owned(), c));
+        if !writes.is_empty() {
+            // replace one slot everywhere it occurs (the closed footprint is reads ∪ writes)
+            let victim = writes[0];
+            let swap = |v: &Vec<SlotId>| -> Vec<SlotId> {
+                v.iter().map(|s| if *s == victim { bogus_slot(0xd2) } else { *s }).collect()
+            };
+            let mut f = StrandDivergenceFootprint::default();
+            f.extend_patch(&footprint_patch(swap(&reads), swap(&writes)));
+            if f.closed_len() == r.owned_divergence.closed_len() {
+                let mut c = r.clone();
+                c.owned_divergence = f;
+                v.push(("owned_divergence".to_owned(), "replace-same-count", "one owned slot replaced".to_owned(), c));
+            }
+        }
+        let mut c = r.clone();
+        c.owned_divergence = StrandDivergenceFootprint::default();
+        if c != *r {
+            v.push(("owned_divergence".to_owned(), "drop", "emptied".to_owned(), c));
+        }
+    }
+    // parent movement footprint
+    let pw: Vec<SlotId> = r.parent_movement.write_slots().copied().collect();
+    {
+        let mut c = r.clone();
+        c.parent_movement.extend_patch(&footprint_patch(Vec::new(), vec![bogus_slot(0xd3)]));
+        v.push(("parent_movement".to_owned(), "add", "one more written slot".to_owned(), c));
+        if !pw.is_empty() {
+            let mut w2 = pw.clone();
+            w2[0] = bogus_slot(0xd4);
+            let mut f = ParentMovementFootprint::default();
+            f.extend_patch(&footprint_patch(Vec::new(), w2));
+            if f.write_len() == r.parent_movement.write_len() {
+                let mut c = r.clone();
+                c.parent_movement = f;
+                v.push(("parent_movement".to_owned(), "replace-same-count", "one written slot replaced".to_owned(), c));
+            }
+        }
+    }
+    // revalidation state
+    let alts = [
+        ("AtAnchor", StrandRevalidationState::AtAnchor),
+        (
+            "ParentAdvancedDisjoint",
+            StrandRevalidationState::ParentAdvancedDisjoint {
+                parent_from: r.parent_anchor.provenance_ref,
+                parent_to: r.realized_parent_ref,
+            },
+        ),
+        (
+            "RevalidationRequired",
+            StrandRevalidationState::RevalidationRequired {
+                parent_from: r.parent_anchor.provenance_ref,
+                parent_to: r.realized_parent_ref,
+                overlapping_slots: vec![bogus_slot(0xd5)],
+            },
+        ),
+    ];
+    for (name, a) in alts {
+        if a != r.parent_revalidation {
+            let mut c = r.clone();
+            c.parent_revalidation = a;
+            v.push(("parent_revalidation".to_owned(), "set", name.to_owned(), c));
+        }
+    }
+    match &r.parent_revalidation {
+        StrandRevalidationState::ParentAdvancedDisjoint { parent_from, parent_to } => {
+            for (f, k, d, x) in ref_variants(parent_from, pos) {
+                let mut c = r.clone();
+                c.parent_revalidation = StrandRevalidationState::ParentAdvancedDisjoint { parent_from: x, parent_to: *parent_to };
+                v.push((format!("parent_revalidation.parent_from.{f}"), k, d, c));
+            }
+            for (f, k, d, x) in ref_variants(parent_to, pos) {
+                let mut c = r.clone();
+                c.parent_revalidation = StrandRevalidationState::ParentAdvancedDisjoint { parent_from: *parent_from, parent_to: x };
+                v.push((format!("parent_revalidation.parent_to.{f}"), k, d, c));
+            }
+        }
+        StrandRevalidationState::RevalidationRequired { parent_from, parent_to, overlapping_slots } => {
+            for (f, k, d, x) in ref_variants(parent_to, pos) {
+                let mut c = r.clone();
+                c.parent_revalidation = StrandRevalidationState::RevalidationRequired { parent_from: *parent_from, parent_to: x, overlapping_slots: overlapping_slots.clone() };
+                v.push((format!("parent_revalidation.parent_to.{f}"), k, d, c));
+            }
+            if !overlapping_slots.is_empty() {
+                let mut o = overlapping_slots.clone();
+                o[0] = bogus_slot(0xd6);
+                let mut c = r.clone();
+                c.parent_revalidation = StrandRevalidationState::RevalidationRequired { parent_from: *parent_from, parent_to: *parent_to, overlapping_slots: o };
+                v.push(("parent_revalidation.overlapping_slots".to_owned(), "replace-same-count", String::new(), c));
+            }
+        }
+        StrandRevalidationState::AtAnchor => {}
+    }
+    v
+}
+
+fn shell_muts(s: &WitnessedSuffixShell, pos: &[usize], foreign: &[ProvenanceRef], h: &History) -> Vec<Mutant<WitnessedSuffixShell>> {
     let mut out = Vec::new();
     let mut add = |field: String, kind: &'static str, detail: String, v: WitnessedSuffixShell| {
         out.push(Mutant { field, kind, detail, value: Ok(v) })
     };
+    match &s.basis_report {
+        None => {
+            let mut c = s.clone();
+            c.basis_report = Some(example_report(h, s));
+            add("shell.basis_report".to_owned(), "some", "hand-built report".to_owned(), c);
+        }
+        Some(r) => {
+            let mut c = s.clone();
+            c.basis_report = None;
+            add("shell.basis_report".to_owned(), "none", String::new(), c);
+            for (f, k, d, x) in report_muts(r, pos) {
+                let mut c = s.clone();
+                c.basis_report = Some(x);
+                add(format!("shell.basis_report.{f}"), k, d, c);
+            }
+        }
+    }
     for &b in pos {
         let mut c = s.clone();
         c.source_worldline_id = WorldlineId::from_bytes({ let mut x = *c.source_worldline_id.as_bytes(); x[b] ^= 1; x });
@@ -1124,20 +1382,39 @@ pub fn suffix(acc: &mut Acc, h: &History, _base: &Baseline, prm: &Params) {
             continue;
         }
         // target of the admission: the tip of another worldline when there is one
-        let target_wl = h.worldlines.iter().find(|x| *x != w && !h.entries_of(**x).is_empty()).copied().unwrap_or(*w);
-        let target_basis = h.entries_of(target_wl).last().map(ProvenanceEntry::as_ref).expect("tip");
-        let foreign: Vec<ProvenanceRef> = if target_wl != *w { vec![target_basis] } else { Vec::new() };
+        let default_target_wl = h.worldlines.iter().find(|x| *x != w && !h.entries_of(**x).is_empty()).copied().unwrap_or(*w);
+        let default_target_basis = h.entries_of(default_target_wl).last().map(ProvenanceEntry::as_ref).expect("tip");
+        let mut configs: Vec<(usize, usize, bool, Option<StrandBasisReport>, WorldlineId, ProvenanceRef)> = Vec::new();
         for b in 0..len {
             for t in b..len {
                 for explicit_target in [true, false] {
                     if !explicit_target && t != len - 1 {
                         continue;
                     }
+                    configs.push((b, t, explicit_target, None, default_target_wl, default_target_basis));
+                }
+            }
+        }
+        // the forked child's own suffix with the real basis report of its strand, admitted on the
+        // parent at the report's realized parent ref
+        if let Some(rep) = &h.basis_report {
+            if rep.child_worldline_id == *w {
+                let b = rep.parent_anchor.fork_tick.as_u64() as usize;
+                if b < len {
+                    configs.push((b, len - 1, true, Some(rep.clone()), rep.realized_parent_ref.worldline_id, rep.realized_parent_ref));
+                    acc.count("suffix_exports_with_real_basis_report", 1);
+                }
+            }
+        }
+        for (b, t, explicit_target, basis, target_wl, target_basis) in configs {
+            {
+                {
+                    let foreign: Vec<ProvenanceRef> = if target_wl != *w { vec![target_basis] } else { Vec::new() };
                     let req = ExportSuffixRequest {
                         source_worldline_id: *w,
                         base_frontier: es[b].as_ref(),
                         target_frontier: if explicit_target { Some(es[t].as_ref()) } else { None },
-                        basis_report: None,
+                        basis_report: basis.clone(),
                     };
                     let bundle = match export_suffix(&req, &ectx) {
                         Ok(bd) => bd,
@@ -1202,13 +1479,13 @@ pub fn suffix(acc: &mut Acc, h: &History, _base: &Baseline, prm: &Params) {
                             bundles.push(Mutant { field: "bundle.target_frontier".to_owned(), kind: "other", detail: format!("ref of tick {i}"), value: Ok(c) });
                         }
                     }
-                    let smuts = shell_muts(&bundle.source_suffix, &prm.pos, &foreign);
+                    let smuts = shell_muts(&bundle.source_suffix, &prm.pos, &foreign, h);
                     for m in &smuts {
                         let mut c = bundle.clone();
                         c.source_suffix = m.value.clone().ok().expect("value");
                         bundles.push(Mutant { field: format!("bundle.{}", m.field), kind: m.kind, detail: m.detail.clone(), value: Ok(c) });
                     }
-                    let pos = format!("{}[base {b}, target {t}{}]", wl_tag(*w), if explicit_target { "" } else { " implicit" });
+                    let pos = format!("{}[base {b}, target {t}{}{}]", wl_tag(*w), if explicit_target { "" } else { " implicit" }, if basis.is_some() { ", strand basis report" } else { "" });
                     for m in bundles {
                         let mb = m.value.ok().expect("value");
                         if mb == bundle {
@@ -1233,6 +1510,15 @@ pub fn suffix(acc: &mut Acc, h: &History, _base: &Baseline, prm: &Params) {
                                     *acc.accepted_same.entry(format!("suffix:{}:{}", m.field, m.kind)).or_insert(0) += 1;
                                     acc.outcome("accepted_same_state");
                                     acc.count("accepted_same_state", 1);
+                                } else if res.bundle_digest == r0.bundle_digest
+                                    && admission_core(&res.admission) == admission_core(&r0.admission)
+                                {
+                                    // same digests, same verdict, same admitted entries on the same
+                                    // basis: only the echoed basis report (evidence outside the
+                                    // shell/bundle digests) differs
+                                    *acc.accepted_outside_digest.entry(format!("suffix:{}:{}", m.field, m.kind)).or_insert(0) += 1;
+                                    acc.outcome("accepted_outside_digest(same admitted entries)");
+                                    acc.count("accepted_outside_digest", 1);
                                 } else {
                                     acc.violation(
                                         format!("import_suffix:{}:{}", m.field, m.kind),
@@ -1269,6 +1555,10 @@ pub fn suffix(acc: &mut Acc, h: &History, _base: &Baseline, prm: &Params) {
                                     *acc.accepted_same.entry(format!("suffix:{}:{}", field, m.kind)).or_insert(0) += 1;
                                     acc.outcome("accepted_same_state");
                                     acc.count("accepted_same_state", 1);
+                                } else if admission_core(&res) == admission_core(&e0) {
+                                    *acc.accepted_outside_digest.entry(format!("suffix:{}:{}", field, m.kind)).or_insert(0) += 1;
+                                    acc.outcome("accepted_outside_digest(same admitted entries)");
+                                    acc.count("accepted_outside_digest", 1);
                                 } else {
                                     acc.violation(
                                         format!("evaluate_witnessed_suffix_admission:{}:{}", field, m.kind),
